@@ -541,7 +541,7 @@ def r7(ctx):
         ctx.emit('C10-R7', True, COUNTTABLE, f, f'{n} stores into `{tab}`: all add a weight to one (sample, key) cell', key='counts-added-per-cell')
     # the exported table
     g = ctx.fn(COUNTTABLE, 'create_count_table')
-    calls = [c for c in walk_no_nested(g) if isinstance(c, ast.Call) and dotted(c.func) == 'assignReads' and len(c.args) > 1]
+    calls = [c for c in ast.walk(g) if isinstance(c, ast.Call) and dotted(c.func) == 'assignReads' and len(c.args) > 1]        # also inside a local closure
     exp = [c for c in walk_no_nested(g) if isinstance(c, ast.Call) and (dotted(c.func) or '').endswith('DataFrame.from_dict') and c.args and isinstance(c.args[0], ast.Name)]
     ctx.need('C10-R7', len(calls), 1, 'assignReads call sites')
     ctx.need('C10-R7', len(exp), 1, 'export of the count table')
